@@ -341,7 +341,14 @@ fn bfs(args: &Args, rep: &Report, cache: CacheCfg, uni: &Uni, depth: usize, stat
             let rt = crate::gate::plain_runtime();
             rt.block_on(async {
                 let (db, mgr, m, vs) = replay(cache, hist).await;
-                let fp = format!("{}|S{:?}", fingerprint(&db, &mgr).await, m.stale);
+                let fp = format!(
+                    "{}|S{:?}|M{}:{}|{}",
+                    fingerprint(&db, &mgr).await,
+                    m.stale,
+                    m.store.active as u8,
+                    m.store.committed.values().map(show_rec).collect::<Vec<_>>().join(";"),
+                    m.store.pending.values().map(show_rec).collect::<Vec<_>>().join(";")
+                );
                 let hshow = || hist.iter().map(show).collect::<Vec<_>>().join(" ; ");
                 if d > 0 {
                     trans.fetch_add(1, std::sync::atomic::Ordering::Relaxed);
